@@ -278,10 +278,15 @@ namespace sbepp
 #    define SBEPP_ASSERT(expr) assert(expr)
 #endif
 
-#define SBEPP_SIZE_CHECK(begin, end, offset, size) \
-    SBEPP_ASSERT(                                  \
-        (begin) && ((begin) <= (end))              \
-        && (((offset) + (size)) <= static_cast<std::size_t>((end) - (begin))))
+// `offset` and `size` are compared separately so that their sum can't wrap
+#define SBEPP_SIZE_CHECK(begin, end, offset, size)                           \
+    SBEPP_ASSERT(                                                            \
+        (begin) && ((begin) <= (end))                                        \
+        && (static_cast<std::size_t>(offset)                                 \
+            <= static_cast<std::size_t>((end) - (begin)))                    \
+        && (static_cast<std::size_t>(size)                                   \
+            <= (static_cast<std::size_t>((end) - (begin))                    \
+                - static_cast<std::size_t>(offset))))
 
 #ifdef SBEPP_VERIF
 // Verification hook (add-only, compiled out unless SBEPP_VERIF is defined):
@@ -3495,8 +3500,8 @@ public:
         SBEPP_SIZE_CHECK(
             (*this)(addressof_tag{}),
             (*this)(end_ptr_tag{}),
-            0,
-            sizeof(size_type) + count);
+            sizeof(size_type),
+            count);
         set_primitive<E>((*this)(addressof_tag{}), count);
     }
 
@@ -3618,8 +3623,8 @@ public:
         SBEPP_SIZE_CHECK(
             (*this)(detail::addressof_tag{}),
             (*this)(detail::end_ptr_tag{}),
-            0,
-            sizeof(size_type) + ilist.size());
+            sizeof(size_type),
+            ilist.size());
         assign(std::begin(ilist), std::end(ilist));
     }
 
@@ -3693,8 +3698,8 @@ private:
         SBEPP_SIZE_CHECK(
             (*this)(detail::addressof_tag{}),
             (*this)(detail::end_ptr_tag{}),
-            0,
-            sizeof(size_type) + size());
+            sizeof(size_type),
+            size());
         return data_unchecked();
     }
 
